@@ -88,6 +88,7 @@ impl Prop for C18 {
         let path_str = path.to_string_lossy().to_string();
         let mode = if case.mutable { MappingMode::Mutable } else { MappingMode::ReadOnly };
         let _ = std::fs::remove_file(&path);
+        let link_path = std::env::temp_dir().join(format!("c18-link-{}-{:016x}", std::process::id(), key));
         let res = (|| -> Result<(), Fail> {
             if case.dir {
                 // a directory can be opened read-only and has a size that is a multiple of 8, but cannot be mapped
@@ -106,14 +107,23 @@ impl Prop for C18 {
             };
             let mut bytes = content(case.seed, size);
             std::fs::write(&path, &bytes).map_err(|e| Fail::new("infra", format!("cannot write scratch file: {}", e)))?;
+            // in a quarter of the cases the file is mapped through a symbolic link: the map must cover the file, not the link
+            let link = std::env::temp_dir().join(format!("c18-link-{}-{:016x}", std::process::id(), key));
+            let via_link = case.seed % 4 == 0;
+            if via_link {
+                let _ = std::fs::remove_file(&link);
+                std::os::unix::fs::symlink(&path, &link).map_err(|e| Fail::new("infra", format!("cannot create a symbolic link: {}", e)))?;
+                rep.class("mapped-through-symlink");
+            }
+            let mpath: &std::path::Path = if via_link { &link } else { &path };
             if size % 8 != 0 {
-                ensure!(MemoryMap::new(&path, mode).is_err(), "MemoryMap.new.size", "mapping a file of {} bytes (not a multiple of 8) returned Ok", size);
+                ensure!(MemoryMap::new(mpath, mode).is_err(), "MemoryMap.new.size", "mapping a file of {} bytes (not a multiple of 8) returned Ok", size);
                 ensure_eq!(mapped_bytes(&path_str)?, 0, "MemoryMap.leak", "bytes mapped after a refused mapping");
                 rep.class("size-not-multiple-of-8");
                 return Ok(());
             }
             for cycle in 0..case.cycles {
-                let map = MemoryMap::new(&path, mode);
+                let map = MemoryMap::new(mpath, mode);
                 if size == 0 {
                     // either refused, or a valid empty slice
                     if let Ok(m) = &map {
@@ -133,7 +143,7 @@ impl Prop for C18 {
                 ensure_eq!(map.len(), size / 8, "MemoryMap.len", "len() for a file of {} bytes", size);
                 ensure_eq!(map.is_empty(), false, "MemoryMap.is_empty", "is_empty()");
                 ensure_eq!(map.mode(), mode, "MemoryMap.mode", "mode()");
-                ensure_eq!(map.filename(), path.as_path(), "MemoryMap.filename", "filename()");
+                ensure_eq!(map.filename(), mpath, "MemoryMap.filename", "filename()");
                 {
                     let s: &[u64] = map.as_ref();
                     ensure_eq!(s.len(), size / 8, "MemoryMap.as_ref", "slice length");
@@ -145,7 +155,7 @@ impl Prop for C18 {
                 let alive = mapped_bytes(&path_str)?;
                 ensure!(alive >= size, "MemoryMap.mapped-while-alive", "/proc/self/maps lists {} bytes for the file while a map of {} bytes is alive", alive, size);
                 let second = if case.two_alive {
-                    let m2 = MemoryMap::new(&path, MappingMode::ReadOnly).map_err(|e| Fail::new("MemoryMap.new", format!("second mapping failed: {}", e)))?;
+                    let m2 = MemoryMap::new(mpath, MappingMode::ReadOnly).map_err(|e| Fail::new("MemoryMap.new", format!("second mapping failed: {}", e)))?;
                     ensure!(mapped_bytes(&path_str)? >= 2 * size, "MemoryMap.mapped-while-alive", "two live maps but fewer than 2*size bytes listed");
                     Some(m2)
                 } else {
@@ -182,6 +192,7 @@ impl Prop for C18 {
             Ok(())
         })();
         let _ = std::fs::remove_file(&path);
+        let _ = std::fs::remove_file(&link_path);
         res?;
         if case.dir {
             return Ok(rep);
@@ -206,7 +217,7 @@ impl Prop for C18 {
     }
 
     fn health(classes: &BTreeMap<String, u64>, _tier: Tier) -> Result<(), String> {
-        for c in ["missing-file", "size:0", "size:odd", "size:sub-page", "size:one-page", "size:whole-pages", "size:pages+partial", "mode:mutable", "mode:read-only", "two-maps-alive", "writes", "directory(refused-by-OS)"] {
+        for c in ["missing-file", "size:0", "size:odd", "size:sub-page", "size:one-page", "size:whole-pages", "size:pages+partial", "mode:mutable", "mode:read-only", "mapped-through-symlink", "two-maps-alive", "writes", "directory(refused-by-OS)"] {
             if classes.get(c).copied().unwrap_or(0) == 0 {
                 return Err(format!("no generated case reached class {}", c));
             }
